@@ -14,7 +14,7 @@ import re
 from vlib import Case, Stream, BUILD, VERIF, model_cmd
 
 ID = "C14DYN"
-LEAN_MODULES = ["HgVerif.Props.C14Dyn"]
+LEAN_MODULES = ["HgVerif.Props.C14Dyn", "HgVerif.Props.C14DynZ"]
 THEOREMS = [
     "HgVerif.DynLife.run_no_violation",
     "HgVerif.DynLife.run_clean_at_return",
@@ -37,10 +37,23 @@ THEOREMS = [
     "HgVerif.DynLife.reduce_clean_at_return",
     "HgVerif.DynLife.reduce_clean_at_release",
     "HgVerif.DynLife.reduce_stop_error_reaches_caller",
+    # reduce_ with its pointer table (Model/DynLifeReduceZ.lean): one rebuild that creates AND sets aside combiners
+    "HgVerif.DynLife.rz_run_no_violation",
+    "HgVerif.DynLife.rz_clean_at_return",
+    "HgVerif.DynLife.rz_clean_at_release",
+    "HgVerif.DynLife.rz_run_node_language",
+    "HgVerif.DynLife.rz_first_error",
+    "HgVerif.DynLife.rzRebuildIn_error",
+    "HgVerif.DynLife.rzStartList_first_error",
+    "HgVerif.DynLife.rzRebuild_spec",
+    "HgVerif.DynLife.rzGuardComb_restores",
+    "HgVerif.DynLife.rz_failed_rebuild_restores_table",
+    "HgVerif.DynLife.rz_failed_rebuild_then_stop_clean",
+    "HgVerif.DynLife.rz_guard_early_leaks",
 ]
 CXX_TARGETS = ["hgv_dynlife"]
 RULE = ("dynlife streams: a map_ (or switch_ with an owned TS<int> output / a forwarding output - branches returning to_tsb / to_tsl "
-        "results as is -, or a reduce_ with a node / sub-graph combiner) over child graphs of 1-3 chained probe nodes; key histories with batches "
+        "results as is -, or a reduce_ with a node / sub-graph combiner, without (`reduce`) and with an explicit scalar zero (`reducez`)) over child graphs of 1-3 chained probe nodes; key histories with batches "
         "(2-4 keys in the first cycle, later batches), one key per cycle, removals, re-adds (new generation), replace-all, value "
         "ticks and idle cycles; 0-3 faults: the k-th probe start call, the n-th evaluation of probe i of key K, the stop of probe i "
         "of key K (pairs such as start fault + stop fault in the rollback, evaluate fault followed by stop fault, stop fault during "
@@ -54,10 +67,15 @@ TRUSTED = ["key-set slot store as modelled for C05 (Slots.TSD): which slot a key
            "UnwindCleanupGuard / FirstExceptionRecorder (util/scope.h) modelled as swallow / first-error-wins folds",
            "shape of the reduce_ combiner tree (which heap positions a key change creates / retires, capacity growth) as "
            "modelled for C11 (Model/Reduce.lean); that every combiner on a structural or modified leaf path is due rests on "
-           "the probe combiners always writing their output (correspondence-checked)"]
+           "the probe combiners always writing their output (correspondence-checked); for the `reducez` kind the tree shape is "
+           "computed by the model itself (`rzRebuild`: capacity rule, needed positions `Reduce.neededAt`, bank swap) from the "
+           "live count and the structural / modified leaves that the C11 leaf bookkeeping (`Reduce.reconcileLeaves`) derives "
+           "from the key history"]
 ASSUMPTIONS = ["faults are std::runtime_error thrown by harness probe hooks; the map has no error output (no per-key capture) and "
-               "its key source does not re-point; switch_ without reload_on_ticked; reduce_ over a TSD without a zero input, with a "
-               "non-liftable combiner; stop errors of combiners that reduce_ retires DURING a run are swallowed by its noexcept "
+               "its key source does not re-point; switch_ without reload_on_ticked; reduce_ over a TSD without a zero input or with a scalar zero "
+               "(wired as a const: it ticks once, in the first cycle), with a non-liftable combiner that never schedules itself "
+               "(no full-scan evaluation); binding / publication failures inside rebuild_structure are covered by the theorems "
+               "(RzIn.bindThrows / publishThrows) but cannot be injected by the harness; stop errors of combiners that reduce_ retires DURING a run are swallowed by its noexcept "
                "retire / rollback paths by design and are not required to reach the caller"]
 
 DL = [os.path.join(BUILD, "hgv_dynlife")]
